@@ -89,8 +89,13 @@ def to_impl_graph(g):
     import_impl()
     from cnfgen.graphs import Graph
     G = Graph(g['n'])
-    for u, v in g['edges']:
-        G.add_edge(u, v)
+    # edges are added in reverse order and with alternating orientation: the sorted views of
+    # cnfgen.Graph (edges(), neighbors()) must not depend on the insertion order
+    for i, (u, v) in enumerate(reversed(g['edges'])):
+        if i % 2:
+            G.add_edge(v, u)
+        else:
+            G.add_edge(u, v)
     return G
 
 
